@@ -25,13 +25,13 @@ from harness.C04 import FsmRef, clamp
 
 PROPERTY = 'C06'
 LEVEL = 'model_checking'
-BOUNDS = {'quick': {'events': 2, 'fsm_events': 1, 'blocks': ['Input', 'Counter', 'timed FSM', 'Timer', 'InputExp'],
+BOUNDS = {'quick': {'events': 2, 'fsm_events': 1, 'blocks': ['Input', 'Counter', 'timed FSM', 'Timer', 'InputExp', 'TimeDate/TimeSpan (concrete configurations)'],
                     'crash points': 'after init / each event / final wait / regular stop / failed start',
                     'downtime': 'symbolic >= 0', 'expiration': [None, 0, 'symbolic > 0']},
           'thorough': {'events': 3, 'fsm_events': 2, 'blocks': ['Input', 'Counter', 'timed FSM', 'Timer', 'InputExp'],
                        'crash points': 'as quick', 'downtime': 'symbolic >= 0', 'expiration': [None, 0, 'symbolic > 0']}}
-OUTSIDE = ["TimeDate / TimeSpan persistence (their restore path = the 'reconfig' path checked in C07; C-level datetime "
-           "objects cannot carry symbolic fields)", "storage back-ends raising errors", "longer histories",
+OUTSIDE = ["TimeDate / TimeSpan persistence with symbolic configurations (covered with concrete configurations only: "
+           "C-level datetime objects cannot carry symbolic fields)", "storage back-ends raising errors", "longer histories",
            "wall-clock jumps during a run (C07)"]
 STUBS = ["virtual-time loop with symbolic clock", "time.time() of edzed.addons/fsm/simulator/utils.looptimes = "
          "EPOCH + loop time + symbolic offset (downtime)", "deep copy of the dict = the pickling of a real storage"]
@@ -617,6 +617,61 @@ def scen_init_event(env, order, etype_kind):
         env.check('restored-state', out['ok'] and bool(env.holds(eq_(out['cnt'], exp))), info=lambda: (order, etype_kind, out, exp))
 
 
+def scen_timeblocks(env, kind, crash, ek):
+    """TimeDate / TimeSpan: the state is the (normalised) configuration; 'reconfig' events are saved, a restart
+    restores the saved configuration instead of the constructor's (concrete configurations, real datetime)"""
+    clock = WallClock()
+    with clock:
+        circ = fresh_circuit()
+        store = PickleStore(STALE)
+        circ.set_persistent_data(store)
+        if kind == 'timedate':
+            mk = lambda **kw: edzed.TimeDate('tb', times='1:00-2:00', dates='Jan 1 - Feb 2', persistent=True, **kw)
+            new_cfg = dict(times=[[[3, 0], [4, 30, 15]]], weekdays='135')
+            exp_init = edzed.TimeDate.parse('1:00-2:00', 'Jan 1 - Feb 2', None)
+            exp_new = edzed.TimeDate.parse(new_cfg['times'], None, '135')
+        else:
+            mk = lambda **kw: edzed.TimeSpan('tb', span='2030-01-01 0:00 / 2031-01-01 0:00', persistent=True, **kw)
+            new_cfg = dict(span=[[[2040, 5, 6, 7, 8], [2041, 1, 2, 3, 4, 5, 6]]])
+            exp_init = edzed.TimeSpan.parse('2030-01-01 0:00 / 2031-01-01 0:00')
+            exp_new = edzed.TimeSpan.parse(new_cfg['span'])
+        blk = mk()
+        snaps = {}
+
+        async def run1():
+            loop = asyncio.get_running_loop()
+            asyncio.create_task(circ.run_forever())
+            await circ.wait_init()
+            env.check('saved-after-init', store.get(blk.key) == exp_init == blk.get_state(), info=lambda: store)
+            snaps['init'] = snap(store)
+            blk.event('reconfig', **new_cfg)
+            env.check('saved-after-event', store.get(blk.key) == exp_new == blk.get_state(), info=lambda: store)
+            snaps['event'] = snap(store)
+            await circ.shutdown()
+            env.check('saved-at-stop', store.get(blk.key) == exp_new and isinstance(store.get('edzed-stop-time'), float))
+            snaps['stop'] = snap(store)
+            clock.frozen_loop_time = loop.time()
+        vloop.run(run1())
+        storage = snaps[crash]
+        exp_saved = exp_init if crash == 'init' else exp_new
+        circ2 = fresh_circuit()
+        store2 = PickleStore(storage)
+        circ2.set_persistent_data(store2)
+        clock.offset = 50.0
+        kw = {} if ek == 'none' else ({'expiration': 0} if ek == 'zero' else {'expiration': 3600.0 if ek == 'long' else 10.0})
+        blk2 = mk(**kw)
+
+        async def run2():
+            asyncio.create_task(circ2.run_forever())
+            await circ2.wait_init()
+            restored = ek in ('none', 'long') or (ek == 'short' and 'edzed-stop-time' not in storage)
+            env.note('restored' if restored else 'discarded-expired')
+            env.check('restored-state', blk2.get_state() == (exp_saved if restored else exp_init),
+                      info=lambda: (crash, ek, blk2.get_state(), exp_saved))
+            await circ2.shutdown()
+        vloop.run(run2())
+
+
 def shards(tier):
     nev = BOUNDS[tier]['events']
     out = [{'name': 'failed start: start() raises', 'scenario': 'scen_failed_start', 'params': {'kind': 'start'}},
@@ -639,6 +694,11 @@ def shards(tier):
                                 'scenario': 'scen_fsm',
                                 'params': {'sync': sync, 'nev': fnev, 'ev0': ev0, 'snap_idx': si, 'ek': ek},
                                 'cost': (20 if ev0 == 'arm' else 5) * (2 if ek == 'sym' else 1)})
+    for kind in ('timedate', 'timespan'):
+        for crash in ('init', 'event', 'stop'):
+            for ek in ('none', 'zero', 'short', 'long'):
+                out.append({'name': f'{kind} snapshot={crash} expiration={ek}', 'scenario': 'scen_timeblocks',
+                            'params': {'kind': kind, 'crash': crash, 'ek': ek}})
     for order in (0, 1):
         for ek in ('plain', 'cond-none', 'cond-both'):
             out.append({'name': f'init-time event order={order} {ek}', 'scenario': 'scen_init_event',
